@@ -33,11 +33,13 @@ Definition constraint_eq_dec : forall a b : constraint, {a = b} + {a <> b}.
 Proof. decide equality; [decide equality; apply tyc_eq_dec | apply bool_dec]. Defined.
 Definition txt_rules_eq_dec : forall a b : txt_rules, {a = b} + {a <> b}.
 Proof. decide equality; try apply obool_eq_dec; apply ostr_eq_dec. Defined.
+Definition kfmt_eq_dec0 : forall a b : kfmt, {a = b} + {a <> b}.
+Proof. decide equality; apply str_eq_dec. Defined.
 Definition j5ext_eq_dec : forall a b : j5ext, {a = b} + {a <> b}.
 Proof.
   decide equality; try apply ostr_eq_dec; try apply bool_dec;
     try (apply list_eq_dec; apply str_eq_dec);
-    decide equality; apply txt_rules_eq_dec.
+    decide equality; first [apply txt_rules_eq_dec | apply kfmt_eq_dec0].
 Defined.
 Definition larm_eq_dec : forall a b : larm, {a = b} + {a <> b}.
 Proof. decide equality. Defined.
